@@ -346,9 +346,21 @@ def discharge_by_guard(p, s):
         if v:
             return v
         if k in ("RemainderByZero", "DivisionByZero"):
-            l = _local_of(s.t["ops"][0])
+            # the assert's operand is the dividend; the divisor is the value compared with 0 in `cond`
+            div = None
+            cl = _local_of(s.t["cond"])
+            if cl is not None:
+                for (dp, b, i, kind, payload) in fn.defs(cl):
+                    if kind == "rv" and payload["k"] == "bin" and payload["op"] == "Eq":
+                        for side, other in ((payload["a"], payload["b"]), (payload["b"], payload["a"])):
+                            oc = other.get("const")
+                            if oc and oc.get("kind") == "int" and oc.get("value") == 0:
+                                div = side
+            if div is None:
+                return None
+            l = _local_of(div)
             if l is None:
-                c = s.t["ops"][0].get("const")
+                c = div.get("const")
                 if c and c.get("kind") == "int" and c.get("value") not in (0, None):
                     return "constant non-zero divisor %s" % c.get("value")
                 return None
@@ -387,6 +399,38 @@ def discharge_by_guard(p, s):
         return None
     # calls
     decl = s.what
+    if s.t.get("target") is None and s.kind == "call":
+        # diverging call (panic!/unreachable!): unreachable if the enum tests on the way exclude every variant
+        excluded = {}
+        allv = {}
+        for sb, si, al in fn.conditions(s.block):
+            d = strip(si.discr)
+            if d[0] == "discr" and si.variants:
+                key = deep_strip(d[1])
+                allv[key] = set(si.variants.values())
+                allowed = set()
+                for v, t in al:
+                    lab = si.label(v)
+                    if isinstance(lab, tuple) and lab and lab[0] == "otherwise":
+                        allowed |= set(lab[1])
+                    else:
+                        allowed.add(lab)
+                excluded.setdefault(key, set(allv[key]))
+                excluded[key] &= allowed   # variants still possible
+        for key, possible in excluded.items():
+            if not possible:
+                return "unreachable: the preceding tests on %s exclude every variant of the enum" % show(key, 3)
+    if decl == "rand::rng::Rng::gen_range":
+        rngs = [x for a in s.ops for x in walk(a) if x[0] == "agg" and x[1].endswith("::Range")]
+        if rngs:
+            fd = dict(rngs[0][3])
+            st, en = deep_strip(fd.get("start")), deep_strip(fd.get("end"))
+            for sb, si, al in fn.conditions(s.block):
+                labs = {si.label(v) for v, _ in al}
+                if labs in ({True}, {False}):
+                    nf = cmp_nf(si.discr, True in labs)
+                    if nf and nf[0] == "Lt" and deep_strip(nf[1]) == st and deep_strip(nf[2]) == en:
+                        return "non-empty range: the call is control-dependent on start < end"
     if decl in ("core::char::methods::<impl char>::to_digit", "core::char::methods::<impl char>::from_digit"):
         rdx = strip(s.ops[1]) if len(s.ops) > 1 else None
         if rdx and rdx[0] == "const" and isinstance(rdx[2], int) and 2 <= rdx[2] <= 36:
